@@ -941,6 +941,70 @@ def chunk_cap_failures(ctx, B, name, depth=0, seen=None, known=1):
     return fails
 
 
+@rule('C15-TERMINATE', 'every loop of the parameter-resolution slice terminates for every configuration: it is driven by a finite iterator or by a strictly decreasing counter that an exit test reads')
+def c15_terminate(ctx):
+    """A resolution that never returns makes the computation fail as surely as a panic.  For each loop of a slice body one of:
+    (a) the loop is left on the None edge of `Iterator::next` over a std range / collection iterator (a `for` loop);
+    (b) a loop-carried integer changes on *every* back edge by a strictly decreasing step (`>> c`, `- c`, `/ c` with c >= 1 resp.
+        c >= 2; never unchanged) and a test on that integer guards an exit of the loop."""
+    out = RuleOut('C15-TERMINATE')
+    F = ctx.facts
+    n = 0
+    for b in sorted(F.fn_bodies(), key=lambda x: x.name):
+        if not in_slice(b):
+            continue
+        cfg = ctx.cfg(b)
+        loops = cfg.loops()
+        if not loops:
+            continue
+        r = ctx.run0(b.name)
+        for header, blocks in sorted(loops.items()):
+            blocks = set(blocks) | {header}
+            n += 1
+            key = 'C15-TERMINATE/%s/bb%d' % (key_of(b), header)
+            key = 'C15-TERMINATE/%s' % key_of(b)
+            exits = [(a, s_) for (a, s_) in cfg.loop_exits(header) if not b.blocks[s_].get('cleanup') and b.blocks[s_]['term']['t'] != 'unreachable']
+            how = None
+            # (a) a for loop
+            for sbb, (d, tg) in r.switches.items():
+                if sbb in blocks and d[0] == 'discr' and d[1][0] == 'call' and sg(d[1][1]).endswith('Iterator::next') and any(a == sbb for (a, s_) in exits):
+                    src = t_str(d[1])
+                    if not any(w in src for w in ('repeat', 'cycle', 'from_fn', 'successors', 'repeat_with')):
+                        how = 'for loop over %s' % src[:60]
+            # (b) a strictly decreasing counter read by an exit test
+            if how is None:
+                for (h, L), recs in r.recur.items():
+                    if h != header:
+                        continue
+                    phi = ('phi', h, L)
+                    steps = []
+                    okv = bool(recs)
+                    for rec in recs:
+                        for alt in alternatives(rec):
+                            dec = alt[0] == 'bin' and alt[2] == phi and const_int(alt[3]) and \
+                                ((alt[1] in ('Shr', 'Sub') and alt[3][1] >= 1) or (alt[1] == 'Div' and alt[3][1] >= 2))
+                            if not dec:
+                                okv = False
+                            steps.append(t_str(alt)[:40])
+                    tests = [sbb for sbb, (d, tg) in r.switches.items() if sbb in blocks and any(x == phi for x in subterms(d)) and any(a == sbb for (a, s_) in exits)]
+                    if okv and tests:
+                        how = 'counter %s decreases on every back edge (%s) and an exit tests it' % (b.local_name(L) or '_%d' % L, ', '.join(sorted(set(steps))))
+            # (c) a spawn loop: left on the false edge of do_spawn(counter); C08-SPAWN / C08-GUARD decide that every guarded spawn
+            # increments the counter and that the guard is false once counter + 1 >= max_num_threads
+            if how is None:
+                from .rules_tasks import spawn_model
+                h = spawn_model(ctx).hosts.get(b.name)
+                if h:
+                    for (gbb, gc, sw) in h['guards']:
+                        if sw and gbb in blocks and sw[2] not in blocks:
+                            how = 'spawn loop left when do_spawn(counter) is false (counter discipline: C08-SPAWN, C08-GUARD)'
+            out.inst(key, how is not None, how or 'no variant found', sample={'fn': key_of(b), 'loop_header': header, 'terminates_by': how})
+            if how is None:
+                out.fail(key, '%s has a loop with neither a finite iterator nor a strictly decreasing, tested counter: for some configuration the parameter resolution may never return' % key_of(b), b.where(b.blocks[header]['term'].get('line')))
+    out.floor('slice_loops', n, 1 if not ctx.fixture else 0)
+    return out
+
+
 @rule('C15-CHUNKCAP', 'for a source of known length every resolved chunk size is bounded by the input length, the thread budget or a constant')
 def c15_chunkcap(ctx):
     out = RuleOut('C15-CHUNKCAP')
